@@ -1,4 +1,5 @@
 import RadicaleModel.Auth
+import RadicaleProofs.BasicHeader
 /-
   C05 — only credentials the auth back-end accepts authenticate, as exactly that user.
   `oracle` stands for passlib / bcrypt (assumed correct); `htpasswd` in the gate theorems is any back-end
@@ -105,6 +106,61 @@ theorem identity_headers_ignored (cfg : Cfg) (htpasswd : Str → Str → Str) (e
     gate cfg htpasswd { env with remoteUser := ru, xRemoteUser := xru } = gate cfg htpasswd env := by
   unfold gate credentials externalLogin
   cases hbk : cfg.backend <;> simp_all
+
+/-! ### from the raw `Authorization` header to the credentials (model RadicaleModel/BasicHeader.lean): the step before
+    `credentials` above, which the gate model takes as already decoded -/
+
+section BasicHeader
+open Radicale.BasicHeader
+
+/-- how the gate model's header kinds arise from the raw header text -/
+def headerOf (raw : Str) : AuthHeader :=
+  match parse raw with
+  | .absent => if raw = [] then .absent else .other
+  | .creds l p => .basic l p
+  | .error => .malformed
+
+def basicPrefix : Str := ['B', 'a', 's', 'i', 'c', ' ']
+
+/-- **what the client sent is what the back-end is asked**: for every login without ":" and every password — colons,
+    blanks, non-ASCII, empty — the header `Basic base64(utf-8(login ":" password))` is read as exactly that pair -/
+theorem basic_header_read_back (l p : Str) (hl : ':' ∉ l) :
+    parse (basicPrefix ++ b64encode (Quote.utf8 (l ++ ':' :: p))) = .creds l p := by
+  have hch := b64encode_chars (Quote.utf8 (l ++ ':' :: p))
+  have hstart : Str.startsWith (basicPrefix ++ b64encode (Quote.utf8 (l ++ ':' :: p))) "Basic".toList = true := by
+    simp [basicPrefix, Str.startsWith]
+  have hdrop : (basicPrefix ++ b64encode (Quote.utf8 (l ++ ':' :: p))).drop 5 = ' ' :: b64encode (Quote.utf8 (l ++ ':' :: p)) := by
+    simp [basicPrefix]
+  unfold parse
+  rw [hstart, hdrop, pyStrip_lead_space _ (fun c hc => (hch c hc).1)]
+  have hall : (b64encode (Quote.utf8 (l ++ ':' :: p))).all (fun c => decide (c.toNat < 128)) = true := by
+    rw [List.all_eq_true]
+    intro c hc
+    simpa using (hch c hc).2
+  simp only [if_true, hall, b64decode_encode, decodeText_utf8, splitColon_join l p hl]
+
+/-- … and then the gate decides on that pair (composition with the gate model) -/
+theorem basic_header_reaches_gate (l p : Str) (hl : ':' ∉ l) :
+    headerOf (basicPrefix ++ b64encode (Quote.utf8 (l ++ ':' :: p))) = .basic l p := by
+  simp [headerOf, basic_header_read_back l p hl]
+
+/-- **fail closed**: a header that starts with "Basic" and cannot be read (not ASCII, a dangling base-64 group, no colon
+    after decoding) ends the request with status 500 for every back-end that takes its credentials from the header —
+    no handler runs, nothing is treated as anonymous -/
+theorem unreadable_header_fails_closed (cfg : Cfg) (htpasswd : Str → Str → Str) (raw ru xru : Str)
+    (hext : externalLogin cfg ⟨headerOf raw, ru, xru⟩ = none) (hp : parse raw = .error) :
+    gate cfg htpasswd ⟨headerOf raw, ru, xru⟩ = .error500 :=
+  malformed_authorization_fails_closed cfg htpasswd _ hext (by simp [headerOf, hp])
+
+-- non-vacuity / examples: a password with colons and non-ASCII text; junk inside the base-64 text is skipped as CPython does;
+-- no colon, a dangling group and non-ASCII text are errors; another scheme is not an error
+example : parse "Basic Ym9iOnA6dzrDqQ==".toList = .creds "bob".toList "p:w:é".toList := by decide +kernel
+example : parse "Basic  Ym9i-Onc=  ".toList = .creds "bob".toList "w".toList := by decide +kernel
+example : parse "Basic bm9jb2xvbg==".toList = .error ∧ parse "Basic Ym9iOnc".toList = .error ∧ parse "Basic é".toList = .error := by
+  decide +kernel
+example : parse "Bearer abc".toList = .absent ∧ parse [] = .absent := by decide +kernel
+
+end BasicHeader
 
 /-! htpasswd_cache: `content` maps what `stat` shows (size, mtime) to the file's lines — the assumption that an
     edit always changes size or mtime (documented for the option).  Invariant: the cached table is the parse of
